@@ -101,6 +101,19 @@ def replay(cases):
                     lst = lst if k == 0 else (lst[::-1] if k == 1 else lst[len(lst) // 2:] + lst[:len(lst) // 2])
                     src.removeObsList(lst)
                     res = src
+                    if n:
+                        # removal is by position (RemoveByPosition): a ring closed with the track's own first observation, and the
+                        # track concatenated with itself, list observation OBJECTS twice; only the designated positions go
+                        ring = build(T)
+                        ring.addObs(ring.getFirstObs())
+                        ring.removeObsList(list(lst))
+                        twice = build(T)
+                        twice = twice + twice
+                        twice.removeObsList(list(lst))
+                        if ids(ring) != exp + [1] or ids(twice) != exp + list(range(1, n + 1)):
+                            viol.append(("remove/repeated-object", "removeObsList(%s) on the ring %s gave %s, on t + t gave %s; specification %s and %s"
+                                         % (lst, list(range(1, n + 1)) + [1], ids(ring), ids(twice), exp + [1], exp + list(range(1, n + 1))),
+                                         {"T": T, "op": op}))
                 elif name == "concat":
                     other = build(list(reversed(T)), first_id=n + 1)
                     res = src + other
@@ -191,6 +204,7 @@ CONSTANTS
   Emit = %s
 INVARIANT OpsAreSubsequences
 INVARIANT Complement
+INVARIANT RemoveByPosition
 INVARIANT SearchKeepsSorted
 INVARIANT ConcatReadsOwnValues
 CHECK_DEADLOCK FALSE
